@@ -290,12 +290,12 @@ func H_C18(name string, c1, c2, c3, dn, which int) {
 // while Operate drains "the other side" only after one side has ended).
 var unequalInputDeadlock = map[string]bool{
 	"AccelerationBands": true, "Ad": true, "ChaikinOscillator": true, "Cmf": true, "Kdj": true, "Mfm": true,
-	"Mfv": true, "Mlr": true, "Mls": true, "Po": true, "StochasticOscillator": true,
+	"Mfv": true, "Mlr": true, "Mls": true, "Po": true, "StochasticOscillator": true, "SuperTrend": true,
 }
 
 // H_C03: termination, no leak, schedule independence (certificate issued by the
 // engine for this run). capacity = input channel capacity; skew makes the input
-// streams unequal: stream j gets n + ((j+skew) % 3) - 1 values when skew > 0.
+// streams unequal: stream j gets n + offs[skew][j] values (skew 1..4: +-1 and +2 patterns).
 func H_C03(name string, c1, c2, c3, n, capacity, skew int) {
 	ind := Lookup(name)
 	cfg := cfg3(c1, c2, c3)
@@ -304,14 +304,12 @@ func H_C03(name string, c1, c2, c3, n, capacity, skew int) {
 	if skew > 0 && unequalInputDeadlock[name] {
 		vrt.KnownOutcome("KF-C03-unequal-input-lengths")
 	}
-	in := Inputs(ind, "", n+1)
+	in := Inputs(ind, "", n+2)
+	offs := [][]int{{0, 0, 0, 0}, {0, 1, -1, 1}, {1, -1, 0, -1}, {0, 2, 2, 0}, {2, 0, 0, 2}}
 	for j := range in {
-		nj := n
-		if skew > 0 {
-			nj = n + ((j+skew)%3 - 1)
-			if nj < 0 {
-				nj = 0
-			}
+		nj := n + offs[skew][j]
+		if nj < 0 {
+			nj = 0
 		}
 		in[j] = in[j][:nj]
 	}
